@@ -28,6 +28,8 @@
 (* increment with carry (IncBytes), independent of the numeric route.      *)
 (* Invariant ToUnicodeRef: map = RefMap(entries read so far), in every     *)
 (* state (every prefix of every entry sequence up to MaxEnt).              *)
+(* The EMPTY target (<lo> <>, [<>], <lo> <lo> <>) is an entry: the code     *)
+(* has the empty text.                                                     *)
 (* Not modelled: the "U+00A0 does not overwrite a space" special case of   *)
 (* add_cid2unichr (targets here are never U+00A0), glyph-name targets,     *)
 (* cidrange/cidchar sections, one-byte source codes.                       *)
@@ -36,13 +38,16 @@ EXTENDS Integers, Sequences, FiniteSets, TLC, Json
 
 CONSTANTS Entries,    \* the entry alphabet
           MaxEnt,     \* longest entry sequence
-          CidDom      \* the codes whose mapping is observed
+          CidDom,     \* the codes whose mapping is observed
+          Dev         \* deviations in force: "EmptyIncrementBase" - the increment form of bfrange with an EMPTY target
+                      \* (<lo> <lo> <>) yields four zero bytes instead of the empty string (code[-4:] of b"" has length 0
+                      \* and struct.pack(">L", ..)[-0:] is the whole four-byte string)
 
 Max(S) == CHOOSE x \in S : \A y \in S : y <= x
 Min2(a, b) == IF a < b THEN a ELSE b
 Take(s, n) == SubSeq(s, 1, n)
 Drop(s, n) == SubSeq(s, n + 1, Len(s))
-Undef == <<>>
+Undef == <<-1>>        \* no entry (the EMPTY target <<>> is an entry: the code has the empty text)
 
 \* ------------------------------------------------------------------ reference
 \* add one to a big-endian byte string, carrying; overflow of the whole string wraps (not exercised)
@@ -78,31 +83,32 @@ AddVar(var, i) == LET n == Len(var) IN
                   ELSE LET lo == Unpack(SubSeq(var, n - 1, n)) + i
                            hi == (Unpack(SubSeq(var, 1, n - 2)) + lo \div 65536) % Pow256(n - 2) IN
                        Pack(hi, n - 2) \o Pack(lo % 65536, 2)
-PackAdd(tgt, i) == LET vlen == Min2(4, Len(tgt))
-                       pre == Take(tgt, Len(tgt) - vlen)
-                       var == Drop(tgt, Len(tgt) - vlen) IN
-                   pre \o AddVar(var, i)
+PackAdd(tgt, i, dev) == LET vlen == Min2(4, Len(tgt))
+                            pre == Take(tgt, Len(tgt) - vlen)
+                            var == Drop(tgt, Len(tgt) - vlen) IN
+                        IF tgt = <<>> THEN (IF "EmptyIncrementBase" \in dev THEN Pack(i, 4) ELSE <<>>)
+                        ELSE pre \o AddVar(var, i)
 
 Put(m, c, v) == IF c \in CidDom THEN [m EXCEPT ![c] = v] ELSE m
-RECURSIVE PutRange(_, _, _, _)
-PutRange(m, e, i, n) == IF i >= n THEN m ELSE PutRange(Put(m, e.lo + i, PackAdd(e.tgt, i)), e, i + 1, n)
+RECURSIVE PutRange(_, _, _, _, _)
+PutRange(m, e, i, n, dev) == IF i >= n THEN m ELSE PutRange(Put(m, e.lo + i, PackAdd(e.tgt, i, dev)), e, i + 1, n, dev)
 RECURSIVE PutArr(_, _, _, _)
 PutArr(m, e, i, n) == IF i >= n THEN m ELSE PutArr(Put(m, e.lo + i, e.arr[i + 1]), e, i + 1, n)
 
 S0 == [map |-> [c \in CidDom |-> Undef], incmap |-> TRUE]
-Apply(s, e) ==
+Apply(s, e, dev) ==
   CASE e.t = "begincmap" -> [s EXCEPT !.incmap = TRUE]
     [] e.t = "endcmap" -> [s EXCEPT !.incmap = FALSE]
     [] e.t \in {"junkchar", "junkrange"} -> s          \* choplist drops the incomplete group
     [] ~s.incmap -> s
     [] e.t = "bfchar" -> [s EXCEPT !.map = Put(s.map, e.lo, e.tgt)]
-    [] e.t = "bfrange" -> [s EXCEPT !.map = PutRange(s.map, e, 0, e.hi - e.lo + 1)]
+    [] e.t = "bfrange" -> [s EXCEPT !.map = PutRange(s.map, e, 0, e.hi - e.lo + 1, dev)]
     [] e.t = "bfrarr" -> [s EXCEPT !.map = PutArr(s.map, e, 0, Min2(e.hi - e.lo + 1, Len(e.arr)))]
 
-VARIABLES ents, st
-vars == <<ents, st>>
-Init == ents = <<>> /\ st = S0
-Read(e) == Len(ents) < MaxEnt /\ ents' = Append(ents, e) /\ st' = Apply(st, e)
+VARIABLES ents, st, stc          \* st: the intended machine, stc: as coded (Dev)
+vars == <<ents, st, stc>>
+Init == ents = <<>> /\ st = S0 /\ stc = S0
+Read(e) == Len(ents) < MaxEnt /\ ents' = Append(ents, e) /\ st' = Apply(st, e, {}) /\ stc' = Apply(stc, e, Dev)
 ABfChar == Len(ents) < MaxEnt /\ \E e \in Entries : e.t = "bfchar" /\ Read(e)
 ABfRange == Len(ents) < MaxEnt /\ \E e \in Entries : e.t = "bfrange" /\ Read(e)
 ABfRangeArray == Len(ents) < MaxEnt /\ \E e \in Entries : e.t = "bfrarr" /\ Read(e)
@@ -115,8 +121,10 @@ Spec == Init /\ [][Next]_vars
 ToUnicodeRef == st.map = RefMap(ents)
 \* the numeric route of the code and the byte-wise reading of the standard agree on every increment used
 IncrementAgrees == \A j \in 1..Len(ents) : ents[j].t = "bfrange" =>
-                     \A i \in 0..(ents[j].hi - ents[j].lo) : PackAdd(ents[j].tgt, i) = IncN(ents[j].tgt, i)
-EvenTargets == \A c \in CidDom : Len(st.map[c]) % 2 = 0
+                     \A i \in 0..(ents[j].hi - ents[j].lo) : PackAdd(ents[j].tgt, i, {}) = IncN(ents[j].tgt, i)
+EvenTargets == \A c \in CidDom : st.map[c] = Undef \/ Len(st.map[c]) % 2 = 0
+DevLocal == stc # st => "EmptyIncrementBase" \in Dev /\ \E j \in 1..Len(ents) : ents[j].t = "bfrange" /\ ents[j].tgt = <<>>
+AsCodedRef == stc.map = RefMap(ents)       \* NOT expected to hold while Dev is non-empty
 
-Emit == PrintT("@@" \o ToJson([e |-> ents, m |-> [c \in CidDom |-> <<c, st.map[c]>>]]))
+Emit == PrintT("@@" \o ToJson([e |-> ents, m |-> [c \in CidDom |-> <<c, st.map[c]>>], mc |-> [c \in CidDom |-> <<c, stc.map[c]>>]]))
 =============================================================================
